@@ -28,6 +28,7 @@ func runC40(c *Ctx) {
 		// stores to Valid
 		var falseStores []*ssa.Store
 		nTrue := 0
+		validFromErrors := false
 		for _, in := range fnInstrs(fn) {
 			st, ok := in.(*ssa.Store)
 			if !ok {
@@ -44,8 +45,46 @@ func runC40(c *Ctx) {
 				nTrue++
 				c.Check(st.Block() == fn.Blocks[0], "header-valid-flag", key+":true-only-at-start", st.Pos(), "Valid=true only at construction", "Valid is set back to true after checks have run")
 			default:
-				c.Bad("header-valid-flag", key+":store:"+shortArg(desc(st.Val)), st.Pos(), "Valid is assigned %s", desc(st.Val))
+				// Valid = len(result.Errors) == 0, once, on the way to every return: then recording an error is what
+				// makes the result invalid, provided the error list only ever grows
+				derived := false
+				if bo, isBo := st.Val.(*ssa.BinOp); isBo && bo.Op == token.EQL && desc(bo.Y) == "0" && strings.HasPrefix(trace(bo.X), "len(Errors<") {
+					derived = true
+					for _, b := range fn.Blocks {
+						if _, isR := b.Instrs[len(b.Instrs)-1].(*ssa.Return); isR && b != st.Block() && !st.Block().Dominates(b) {
+							derived = false
+						}
+					}
+				}
+				if derived {
+					validFromErrors = true
+					c.Ok("header-valid-flag", key+":derived-from-errors", st.Pos(), "Valid = (no error was recorded), computed before every return")
+				} else {
+					c.Bad("header-valid-flag", key+":store:"+shortArg(desc(st.Val)), st.Pos(), "Valid is assigned %s", desc(st.Val))
+				}
 			}
+		}
+		if validFromErrors {
+			// the error list only grows: every store to Errors is the initial empty list or append(Errors, …)
+			for _, in := range fnInstrs(fn) {
+				st, ok := in.(*ssa.Store)
+				if !ok {
+					continue
+				}
+				fa, ok := st.Addr.(*ssa.FieldAddr)
+				if !ok || fieldName(fa.X.Type(), fa.Field) != "Errors" {
+					continue
+				}
+				t := trace(st.Val)
+				switch {
+				case strings.HasPrefix(t, "makeslice("), strings.HasPrefix(t, "alloc:*[") && st.Block() == fn.Blocks[0], t == "nil" && st.Block() == fn.Blocks[0]:
+				case strings.HasPrefix(t, "append(Errors<"):
+					falseStores = append(falseStores, st)
+				default:
+					c.Bad("header-valid-flag", key+":errors-store:"+shortArg(t), st.Pos(), "the error list is replaced by %s: recorded failures can be lost before Valid is computed", shortArg(t))
+				}
+			}
+			nTrue = 1
 		}
 		c.Check(nTrue == 1, "header-valid-flag", key+":initialised", fn.Pos(), "starts valid", fmt.Sprintf("Valid is set to true %d times", nTrue))
 		var rets []*ssa.BasicBlock
